@@ -96,6 +96,8 @@ func c13alphabet() []c13op {
 		a = append(a, c13op{kind: "advance", dur: d})
 	}
 	a = append(a, c13op{kind: "reopen"})
+	a = append(a, c13op{kind: "status||ban", form: 0, dur: time.Hour})
+	a = append(a, c13op{kind: "status||ban", form: 6, dur: time.Hour})
 	return a
 }
 
@@ -105,6 +107,8 @@ func (o c13op) String() string {
 		return fmt.Sprintf("Ban(%s, %v)", c13forms[o.form].name, o.dur)
 	case "unban", "status":
 		return fmt.Sprintf("%s(%s)", o.kind, c13forms[o.form].name)
+	case "status||ban":
+		return fmt.Sprintf("Status(%s) overlapping Ban(%s, %v) by another caller", c13forms[o.form].name, c13forms[o.form].name, o.dur)
 	case "advance":
 		return fmt.Sprintf("advance(%v)", o.dur)
 	}
@@ -155,6 +159,29 @@ func (b *boltBackend) reopen() walletdb.DB {
 }
 func (b *boltBackend) close() { b.db.Close(); os.Remove(b.path) }
 
+// hookDB makes the boundaries between database transactions visible: the hook
+// runs before every View/Update the store starts. Transactions are atomic and
+// serialised by the database, so another caller's operation between two
+// transactions of one store call is exactly what a concurrent caller can do.
+type hookDB struct {
+	walletdb.DB
+	before *func()
+}
+
+func (h hookDB) View(f func(tx walletdb.ReadTx) error, reset func()) error {
+	if *h.before != nil {
+		(*h.before)()
+	}
+	return h.DB.View(f, reset)
+}
+
+func (h hookDB) Update(f func(tx walletdb.ReadWriteTx) error, reset func()) error {
+	if *h.before != nil {
+		(*h.before)()
+	}
+	return h.DB.Update(f, reset)
+}
+
 func c13Body(t *testing.T, depth int, bolt bool) func(c *verifeng.Chooser) {
 	alpha := c13alphabet()
 	return func(c *verifeng.Chooser) {
@@ -177,7 +204,9 @@ func c13Run(c *verifeng.Chooser, depth int, alpha []c13op, bolt bool) {
 		}
 		be = &boltBackend{path: filepath.Join(dir, "c13.db")}
 	}
-	db := be.open()
+	var hook func()
+	wrap := func(d walletdb.DB) walletdb.DB { return hookDB{DB: d, before: &hook} }
+	db := wrap(be.open())
 	defer be.close()
 	store, err := banman.NewStore(db)
 	if err != nil {
@@ -271,10 +300,45 @@ func c13Run(c *verifeng.Chooser, depth int, alpha []c13op, bolt bool) {
 		case "advance":
 			time.Sleep(o.dur)
 		case "reopen":
-			db = be.reopen()
+			db = wrap(be.reopen())
 			store, err = banman.NewStore(db)
 			if err != nil {
 				c.Fail("open", "reopen-fails", "NewStore after reopen: %v", err)
+				return
+			}
+		case "status||ban":
+			// another caller bans the address between two database
+			// transactions of this Status call (if it has more than one)
+			n := parse(c13forms[o.form])
+			if n == nil {
+				return
+			}
+			ntx := 0
+			hook = func() {
+				ntx++
+				if ntx != 2 {
+					return
+				}
+				hook = nil
+				c.Note("between two transactions of Status: Ban(%s, %v) by another caller", c13forms[o.form].name, o.dur)
+				if err := store.BanIPNet(n, reasonFor(o.dur), o.dur); err != nil {
+					c.Fail("ban", "ban-error", "BanIPNet(%s): %v", c13forms[o.form].name, err)
+					return
+				}
+				model[refKey(c13forms[o.form])] = c13rec{time.Now().Add(o.dur), reasonFor(o.dur)}
+			}
+			_, err := store.Status(n)
+			hook = nil
+			if c.Failed() {
+				return
+			}
+			if err != nil {
+				c.Fail("status", "status-error", "Status(%s): %v", c13forms[o.form].name, err)
+				return
+			}
+			// whichever answer Status gave (it overlapped the ban), the
+			// ban itself must stand: asked again, now sequentially
+			if ntx >= 2 && checkStatus(o.form, "after a Status call that overlapped a Ban") {
 				return
 			}
 		}
@@ -286,7 +350,7 @@ func c13Run(c *verifeng.Chooser, depth int, alpha []c13op, bolt bool) {
 				return
 			}
 		}
-		db = be.reopen()
+		db = wrap(be.reopen())
 		store, err = banman.NewStore(db)
 		if err != nil {
 			c.Fail("open", "reopen-fails", "NewStore after reopen: %v", err)
